@@ -26,6 +26,7 @@ const prelude = `
 (defmacro mloop (n) (if (<= n 0) 0 (quasiquote (mloop (unquote (- n 1))))))
 (defmacro pmac () (host-panic "in macro"))
 (defmacro wrapm (&rest body) (quasiquote (progn (unquote-splicing body))))
+(defun prof-trap () "PROFILER-TRAP" 0)
 (in-package 'lib)
 (export 'twice)
 (defun helper (x) (* x 2))
@@ -56,7 +57,9 @@ const battery = `
   (progn (set 'b-marker 1) (list b-marker (ignore-errors user:b-marker)))
   (nest 5 (lambda () 7))
   (deep 40) (spin 300) (mloop 20)
-  (ignore-errors (ctxfn 5)) (ignore-errors (funcall ctxclosure 2)))
+  (ignore-errors (ctxfn 5)) (ignore-errors (funcall ctxclosure 2))
+  (ignore-errors (error 'internal-panic "forged: an ordinary error with that name"))
+  (handler-bind ((condition (lambda (c &rest d) (list 'caught c)))) (car 5)))
 `
 
 var cfg = vcommon.Cfg{NoStdlib: true, MaxPhysical: 250, MaxNesting: 600, MaxTailIter: 2000, MaxMacroDepth: 50, MaxAlloc: 100000}
@@ -78,7 +81,7 @@ type History struct {
 
 var failKinds = []string{"none", "none", "error", "error-in-handler", "error-in-handler-handler", "rethrow-in-handler", "rethrow-outside",
 	"unbound", "arity", "phys", "nesting", "tail", "macro", "host-panic", "host-panic-in-handler", "host-panic-in-macro", "load-fail",
-	"ignore-then-fail", "set-unbound", "bad-call-head", "nested-empty-load", "go-handler-panics", "cross-package-early-fail", "cross-package-early-fail", "cross-package-macro-fail"}
+	"ignore-then-fail", "set-unbound", "bad-call-head", "nested-empty-load", "profiler-hook-panics", "host-panic-arg", "go-handler-panics", "cross-package-early-fail", "cross-package-early-fail", "cross-package-macro-fail"}
 
 func genHistory() *rapid.Generator[History] {
 	act := rapid.Custom(func(t *rapid.T) Action {
@@ -137,6 +140,11 @@ func failForm(kind string) string {
 		return "(pmac)"
 	case "load-fail":
 		return "(load-string \"(in-package 'other2) (gset 'v3 5) (error 'nested 3)\")"
+	case "profiler-hook-panics":
+		// the attached profiler's Start hook panics for this function
+		return "(prof-trap)"
+	case "host-panic-arg":
+		return "(+ 1 (host-panic \"in argument\"))"
 	case "nested-empty-load":
 		return "(progn (load-string \"\") (load-string \" ; nothing here\\n\") 0)"
 	case "ignore-then-fail":
@@ -293,6 +301,10 @@ func describe1(rt *vcommon.Rt, a Action, hostEntry bool, hostLoc string, res *li
 		b.WriteString("VALUE " + vcommon.Canon(res))
 	} else {
 		fmt.Fprintf(&b, "ERROR<%s> %s", res.Str, (*lisp.ErrorVal)(res).ErrorMessage())
+		fmt.Fprintf(&b, " panic=%v", lisp.IsInternalPanic(res))
+		if st := res.CallStack(); st != nil && len(st.GoStack) > 0 {
+			b.WriteString(" +gostack")
+		}
 		if loc, ok := res.Source(); ok && !(hostEntry && locString(&loc) == hostLoc) {
 			fmt.Fprintf(&b, " @%s", locString(&loc))
 		} else if hostEntry {
@@ -319,8 +331,20 @@ func describe1(rt *vcommon.Rt, a Action, hostEntry bool, hostLoc string, res *li
 	return b.String()
 }
 
+// trapProfiler is an attached profiler whose Start hook panics for one marked
+// function (host code in the window between frame push and deferred pop).
+type trapProfiler struct{}
+
+func (trapProfiler) Start(fun *lisp.LVal) func() {
+	if fun != nil && fun.Type == lisp.LFun && fun.Docstring() == "PROFILER-TRAP" {
+		panic("profiler hook panics")
+	}
+	return func() {}
+}
+
 func newRT() *vcommon.Rt {
 	rt := vcommon.NewRuntime(cfg)
+	rt.Env.Runtime.Profiler = trapProfiler{}
 	if o := rt.Load(prelude); o.IsErr {
 		panic("prelude: " + o.Msg)
 	}
@@ -421,7 +445,7 @@ func checkHistory(h History, c *vcommon.Ctx) *vcommon.Failure {
 			if a.Depth >= 2 {
 				failedDeep = true
 			}
-			if lisp.IsInternalPanic(res) && !strings.Contains(a.Fail, "panic") {
+			if lisp.IsInternalPanic(res) && !strings.Contains(a.Fail, "panic") && a.Entry != "load-empty" && a.Entry != "def-ctx" {
 				return vcommon.Failf("internal-panic", "unexpected internal panic: %v\n%s", (*lisp.ErrorVal)(res).ErrorMessage(), log.String())
 			}
 		}
